@@ -72,9 +72,17 @@ class PropertyGroup(ABC):
 
         parent.add_children([self])
 
-        map_attributes(self, **kwargs)
+        try:
+            map_attributes(self, **kwargs)
 
-        self.parent.workspace.register(self)
+            self.parent.workspace.register(self)
+        except Exception:
+            # a refused property group must not stay attached to its parent
+            for attribute in ["_children", "_property_groups"]:
+                siblings = getattr(parent, attribute, None)
+                if siblings is not None:
+                    siblings[:] = [child for child in siblings if child is not self]
+            raise
 
     def add_properties(self, data: Data | list[Data | uuid.UUID] | uuid.UUID):
         """
